@@ -195,6 +195,9 @@ USER_KEY_CONFIGS = [
     (keycfg(dsa_high=0, dsa_medium=0, rsa_high=-5, rsa_medium=3, ec_high=0, ec_medium=1000), [-5, 0, 3]),
     (keycfg(dsa_high=3000, dsa_medium=3000, rsa_high=2 ** 64, rsa_medium=2 ** 65, ec_high=571, ec_medium=572), [3000, 2 ** 64, 2 ** 65]),
 ]
+# the same settings written in another order in the file (medium before high, ec first): the order of keys in a mapping says nothing
+USER_KEY_CONFIGS += [({"weak_cryptographic_key": dict(reversed(list(c_["weak_cryptographic_key"].items())))}, t_) for c_, t_ in USER_KEY_CONFIGS[:2]]
+USER_KEY_CONFIGS.append(({"weak_cryptographic_key": dict(sorted(DEFAULT_KEY_CFG.items(), key=lambda kv: (kv[0].split("_")[-1] != "medium", kv[0])))}, [1024, 2048]))
 
 
 def gen_b505(rng, full):
@@ -221,6 +224,7 @@ def gen_b505(rng, full):
     al = curve_arglists(rng, full)
     out += calls_programs(EC_IO, al, pre=ecpre)
     ec_cfgs = [keycfg(ec_high=c, ec_medium=c + 1) for c in sorted(set(CURVES.values()))]
+    ec_cfgs += [{"weak_cryptographic_key": dict(reversed(list(keycfg(ec_high=200, ec_medium=300)["weak_cryptographic_key"].items())))}]
     ec_cfgs += [keycfg(ec_high=225, ec_medium=225), keycfg(ec_high=224, ec_medium=225), keycfg(ec_high=600, ec_medium=100),
                 keycfg(ec_high=0, ec_medium=0)]
     al_all = [["zz_ec.%s" % c] for c in CURVES] + [["curve=zz_ec.%s" % c] for c in CURVES] + [[], ["zz_unknown"], ["zz_ec.X()"]]
